@@ -135,13 +135,11 @@ func c05RunJob(j c05Job) c05Result {
 	p.main, p.off = 0, 0
 	v, err := f.Eval(args...)
 	if err == nil {
-		// results are lazy lists in some cases: force them on this goroutine through the same protected entry
-		if l, ok := v.(*value.List); ok {
-			ff, _, gerr := fg.Generate("l.eval().size()", "l")
-			if gerr == nil {
-				_, err = ff.Eval(l)
-				res.Forced = err != nil
-			}
+		// results may hold lazy lists at any depth: evaluate them on this goroutine, every list through the
+		// same protected entry (a generated function)
+		if ferr := c05DeepForce(fg, v, 0); ferr != nil {
+			err = ferr
+			res.Forced = true
 		}
 	}
 	p.mu.Lock()
@@ -165,6 +163,43 @@ func c05RunJob(j c05Job) c05Result {
 	}
 	res.Detail = s
 	return res
+}
+
+// c05DeepForce evaluates every list reachable from v (elements of lists, values of maps)
+func c05DeepForce(fg *value.FunctionGenerator, v value.Value, depth int) error {
+	if depth > 8 {
+		return nil
+	}
+	switch x := v.(type) {
+	case *value.List:
+		ff, _, gerr := fg.Generate("l.eval().size()", "l")
+		if gerr != nil {
+			return nil
+		}
+		if _, err := ff.Eval(x); err != nil {
+			return err
+		}
+		sl, err := x.ToSlice(funcGen.NewEmptyStack[value.Value]())
+		if err != nil {
+			return err
+		}
+		if len(sl) > 64 {
+			sl = sl[:64]
+		}
+		for _, e := range sl {
+			if err := c05DeepForce(fg, e, depth+1); err != nil {
+				return err
+			}
+		}
+	case value.Map:
+		var inner error
+		x.Iter(func(k string, e value.Value) bool {
+			inner = c05DeepForce(fg, e, depth+1)
+			return inner == nil
+		})
+		return inner
+	}
+	return nil
 }
 
 func cmdC05Worker(seed int64, tier, outDir string) {
